@@ -1076,30 +1076,23 @@ Proof.
   intros Hc Hs. unfold send_conn. rewrite Hc. cbn [is_closing]. unfold close_conn. rewrite Hc, Hs. reflexivity.
 Qed.
 
-Lemma wf_do_hello xr h c cn hl :
-  WFg xr none1 h -> aget (h_conns h) c = Some (mkconn (c_addr cn) None (match hl with HResume _ => c_expect cn | _ => false end)) ->
-  WFg xr none1 (fst (do_hello h c cn hl)).
+(* a resume, after the session was attached to the new connection and its queue flushed (the state in
+   which a queued closing message then closes the connection again) *)
+Lemma wf_resume_attached xr h c cn n s :
+  WFg xr none1 h -> aget (h_conns h) c = Some (mkconn (c_addr cn) None (c_expect cn)) ->
+  get_sess h n = Some s -> is_virtual (s_kind s) = false ->
+  let h1 := fst (match s_conn s with
+                 | Some c' => if N.eqb c' c then (h, [])
+                              else send_conn (match aget (h_conns h) c' with
+                                              | Some cn' => set_conns h (aset (h_conns h) c' (mkconn (c_addr cn') None (c_expect cn')))
+                                              | None => h end) c' (SBye B_session_resumed)
+                 | None => (h, []) end) in
+  let h2 := put_sess h1 n (sess_pending (sess_conn s (Some c)) []) in
+  let h3 := set_expired h2 (nrem n (h_expired h2)) in
+  let h4 := set_clients h3 (nadd n (h_clients h3)) in
+  WFg xr none1 (set_conns h4 (aset (h_conns h4) c (mkconn (c_addr cn) (Some n) false))).
 Proof.
-  intros W Hc. unfold do_hello.
-  assert (Wexp : WFg xr none1 (set_conns h (aset (h_conns h) c (mkconn (c_addr cn) None true)))) by now apply wf_set_conn_nosess.
-  destruct hl as [b u rej|b u t|b tok f d|i].
-  - (* v1 *)
-    destruct (h_nb h <=? b); [exact Wexp|]. destruct rej; [exact Wexp|].
-    destruct (register h c cn b KClient u) as [h1 o1] eqn:Hr. cbn [fst]. rewrite (fst_eq _ _ _ Hr). now apply wf_register.
-  - (* v2 *)
-    destruct (v2_check (h_nb h) b t); [now apply wf_register|exact Wexp].
-  - (* internal *)
-    destruct (throttled h (c_addr cn) ACT_INTERNAL); [exact Wexp|].
-    destruct (negb (N.eqb tok 0)).
-    { cbn [fst]. apply wf_set_conn_nosess; [|reflexivity]. eapply wf_equiv; [apply equiv_fail|exact W]. }
-    destruct (h_nb h <=? b).
-    { cbn [fst]. apply wf_set_conn_nosess; [|reflexivity]. eapply wf_equiv; [apply equiv_fail|exact W]. }
-    now apply wf_register.
-  - (* resume *)
-    destruct (throttled h (c_addr cn) ACT_RESUME); [exact W|].
-    destruct i as [n|n|k|n]; try (cbn [fst]; eapply wf_equiv; [apply equiv_fail|exact W]).
-    destruct (get_sess h n) as [s|] eqn:Hs; [|exact W].
-    destruct (is_virtual (s_kind s)) eqn:Hv; [exact W|].
+  intros W Hc Hs Hv. cbv zeta.
     (* state after the previous connection was told to go *)
     set (P := match s_conn s with
               | Some c' => if N.eqb c' c then (h, [])
@@ -1136,6 +1129,37 @@ Proof.
     assert (W4 : WFg xr none1 (set_clients h3 (nadd n (h_clients h3)))).
     { apply wf_set_clients; [exact W3|]. intros x Hx. apply in_nadd in Hx as [->|Hx]; [eexists; exact Hs2|apply (wf_clients _ _ _ W3 x Hx)]. }
     apply (wf_attach_conn _ _ _ c _ n s1); auto.
+Qed.
+
+Lemma wf_do_hello xr h c cn hl :
+  WFg xr none1 h -> aget (h_conns h) c = Some (mkconn (c_addr cn) None (match hl with HResume _ => c_expect cn | _ => false end)) ->
+  WFg xr none1 (fst (do_hello h c cn hl)).
+Proof.
+  intros W Hc. unfold do_hello.
+  assert (Wexp : WFg xr none1 (set_conns h (aset (h_conns h) c (mkconn (c_addr cn) None true)))) by now apply wf_set_conn_nosess.
+  destruct hl as [b u rej|b u t|b tok f d|i].
+  - (* v1 *)
+    destruct (h_nb h <=? b); [exact Wexp|]. destruct rej; [exact Wexp|].
+    destruct (register h c cn b KClient u) as [h1 o1] eqn:Hr. cbn [fst]. rewrite (fst_eq _ _ _ Hr). now apply wf_register.
+  - (* v2 *)
+    destruct (v2_check (h_nb h) b t); [now apply wf_register|exact Wexp].
+  - (* internal *)
+    destruct (throttled h (c_addr cn) ACT_INTERNAL); [exact Wexp|].
+    destruct (negb (N.eqb tok 0)).
+    { cbn [fst]. apply wf_set_conn_nosess; [|reflexivity]. eapply wf_equiv; [apply equiv_fail|exact W]. }
+    destruct (h_nb h <=? b).
+    { cbn [fst]. apply wf_set_conn_nosess; [|reflexivity]. eapply wf_equiv; [apply equiv_fail|exact W]. }
+    now apply wf_register.
+  - (* resume *)
+    destruct (throttled h (c_addr cn) ACT_RESUME); [exact W|].
+    destruct i as [n|n|k|n]; try (cbn [fst]; eapply wf_equiv; [apply equiv_fail|exact W]).
+    destruct (get_sess h n) as [s|] eqn:Hs; [|exact W].
+    destruct (is_virtual (s_kind s)) eqn:Hv; [exact W|].
+    pose proof (wf_resume_attached xr h c cn n s W Hc Hs Hv) as W5. cbv zeta in W5.
+    match type of W5 with context [fst ?X] => destruct X as [h1 outs1] end. cbn [fst] in *.
+    destruct (queue_closes s); [|exact W5].
+    match goal with |- context [close_conn ?hh c] => destruct (close_conn hh c) as [h6 o6] eqn:H6 end. cbn [fst].
+    rewrite (fst_eq _ _ _ H6). now apply wf_close_conn.
 Qed.
 
 (* ------------------------------------------------------------------ joining *)
@@ -1782,7 +1806,7 @@ Lemma equiv_do_media h c sid s to mk stream media :
 Proof.
   intros Hs. unfold do_media. destruct to as [i|u| |]; try apply equiv_refl.
   destruct (N.eqb mk 0).
-  - destruct (negb (offer_allowed (s_perms s) stream media)); [apply equiv_refl|].
+  - destruct (negb (offer_allowed (s_perms s) stream _)); [apply equiv_refl|].
     destruct (aget (s_pubs s) stream); [|apply equiv_start_create].
     eapply equiv_trans; [|apply equiv_send_session; reflexivity]. apply equiv_put with s; [exact Hs|reflexivity].
   - destruct (N.eqb mk 1).
